@@ -307,21 +307,25 @@ def _hz(v):
 _PRIS_ROWS = {}      # id(row object) -> row object, for the rows of the pristine tables (kept alive by isolation.py)
 
 
-def _rowkey(ps):
-    # a pristine row object is represented by its identity (its *content* is re-checked against the pristine
-    # snapshot by the full canonical comparison at the end of every history); any other row by its full content
-    i = id(ps)
-    if _PRIS_ROWS.get(i) is ps:
-        return i
-    return tuple((k, _hz(v)) for k, v in ps.__dict__.items())
+_PRIS_IDS = set()
+
+
+def _rows(tbl):
+    # a pristine row object is represented by its identity (its *content* is re-checked against a copy taken at
+    # start-up at the end of every history, see _restore); any other row by its full content
+    vals = list(tbl._data.values())
+    ids = list(map(id, vals))
+    other = set(ids) - _PRIS_IDS
+    for x in other:
+        i = ids.index(x)
+        ids[i] = tuple((k, _hz(v)) for k, v in vals[i].__dict__.items())
+    return tuple(ids)
 
 
 def _fp():
     """fast fingerprint of the tables (equal fingerprints => equal canonical states, given unmodified pristine rows)"""
     us, up, ut = iso._tables()
-    return (tuple(us._keys), tuple(us._data), tuple([_rowkey(v) for v in us._data.values()]),
-            tuple(up._keys), tuple(up._data), tuple([_rowkey(v) for v in up._data.values()]),
-            tuple(ut))
+    return (tuple(us._keys), tuple(us._data), _rows(us), tuple(up._keys), tuple(up._data), _rows(up), tuple(ut))
 
 
 def _snap():
@@ -380,6 +384,7 @@ def init_worker():
     for tbl in (UNIT_STANDARD, UNIT_PREFIXES):
         for ps in tbl._data.values():
             _PRIS_ROWS[id(ps)] = ps
+            _PRIS_IDS.add(id(ps))
             _PRIS_COPY[id(ps)] = copy.deepcopy(ps.__dict__)
     _PRISTINE = _snap()
     sp = set()
@@ -434,9 +439,14 @@ class _End(BaseException):
     pass
 
 
-def _run_dip(text, env=None):
+def _run_dip(text, env=None, keep=None):
+    """parse DIP text (optionally continuing environment `env`); `keep` receives the DIP object so that the caller
+    can keep it alive: DIP names its root source after id(self), and a recycled id would clash in a second parse"""
     from scinumtools.dip import DIP
-    with DIP(env) if env is not None else DIP() as d:
+    d = DIP(env) if env is not None else DIP()
+    if keep is not None:
+        keep.append(d)
+    with d:
         d.add_string(text)
         return d.parse()
 
@@ -444,7 +454,10 @@ def _run_dip(text, env=None):
 class Run:
     """executes one history on the real tables; self.fail = first violation (failure record) or None"""
 
-    def __init__(self, hist):
+    def __init__(self, hist, check_from=0):
+        # check_from: index of the first operation whose usability probes / state digests are evaluated (the table
+        # invariant is evaluated on every operation); explorers whose case sets are prefix-closed pass len(hist)-1
+        self.check_from = check_from
         self.h = [tuple(op) for op in hist]
         self.i = 0
         self.stack = []          # real open scopes: [set, style, env]
@@ -469,6 +482,9 @@ class Run:
         return self.dicts[name]
 
     def done(self, idx, label):
+        if idx < self.check_from:
+            self.events.append(label)
+            return
         fp = _snap()
         desc = tuple((s, st, tuple(getattr(e, "new_units", ())), tuple(t.__name__ for t in getattr(e, "new_types", ())))
                      for s, st, e in self.stack)
@@ -480,6 +496,8 @@ class Run:
 
     def check_open_usable(self, tags, full_top=False):
         """every open scope's units work (all spellings of the scope just opened, the symbols of the others)"""
+        if self.i - 1 < self.check_from:
+            return
         for n, (s, st, e) in enumerate(self.stack):
             probes = PROBE[s] if full_top and n == len(self.stack) - 1 else SYMS[s]
             for p in probes:
@@ -492,6 +510,8 @@ class Run:
         live = set()
         for s, st, e in self.stack:
             live.update(PROBE[s])
+        if self.i - 1 < self.check_from:
+            return
         for p in syms:
             if p in live or p in _SPELL:
                 continue
@@ -670,7 +690,9 @@ class Run:
 
 
 def _exec(hist, sh, tier=None, part=None, seen=None):
-    r = Run(hist)
+    # graph / hist / core enumerate prefix-closed sets of histories: the probes of earlier operations were evaluated
+    # when the shorter history was executed
+    r = Run(hist, check_from=0 if part == "cycles" else len(hist) - 1)
     bad = r.go()
     sh.evaluations += 1
     sh.traces += 1
@@ -768,11 +790,12 @@ def _dip_case(ctx, lines, split=0):
     try:
         def parse_all():
             if ctx == "split":
-                env = _run_dip(_dip_text(lines[:split]))
+                keep = []
+                env = _run_dip(_dip_text(lines[:split]), keep=keep)
                 mid = _diff(entry)
                 if mid:
                     return ("mid", mid)
-                return ("ok", _run_dip(_dip_text(lines[split:]), env))
+                return ("ok", _run_dip(_dip_text(lines[split:]), env, keep=keep))
             return ("ok", _run_dip(_dip_text(lines)))
 
         outer = None
